@@ -123,8 +123,13 @@ func runH264RT(c *Case, disable, avc bool, calls []h264Call) {
 		c.Tag("rx=one-reused-buffer")
 	}
 	if try(func() {
+		// payload the whole history first, depacketize afterwards (packets wait in a send queue while
+		// the next access units are packetized): what a call returned must still be its units then
+		all := make([][][]byte, 0, len(calls))
 		for _, cl := range calls {
-			frags := pay.Payload(uint16(cl.mtu), cl.buffer())
+			all = append(all, pay.Payload(uint16(cl.mtu), cl.buffer()))
+		}
+		for _, frags := range all {
 			o.Nat(len(frags))
 			for _, f := range frags {
 				head := dep.IsPartitionHead(f)
@@ -806,9 +811,14 @@ func genC08H264(x *Ctx) {
 		writeCalls(&c.I, calls)
 		p, twin := &codecs.H264Payloader{}, &codecs.H264Payloader{}
 		c.O.Nat(len(calls))
+		recs := make([]*payRecord, 0, len(calls))
 		for k, cl := range calls {
 			p.DisableStapA, twin.DisableStapA = flags[k], flags[k]
-			observePay(&c.O, p, twin, cl.MTU, cl.Input)
+			recs = append(recs, observePayDeferred(p, twin, cl.MTU, cl.Input))
+		}
+		for _, r := range recs { // fragments of earlier calls must survive the later calls
+			r.stillStable()
+			r.write(&c.O)
 		}
 	}
 	// (a) grid: MTU 0..20 exhaustively (21..64 sampled, 1200, 1500, 65535) × SPS,PPS,IDR histories
